@@ -3,9 +3,9 @@
 package verifharness
 
 import (
-	"reflect"
 	"fmt"
 	"math/rand"
+	"reflect"
 	"strings"
 
 	"github.com/protolambda/ztyp/tree"
@@ -492,11 +492,11 @@ func opsSexp(ops []hop) string {
 // ---- online generation of mostly-valid histories ----
 
 type histGen struct {
-	g      *gen
-	r      *rand.Rand
-	snaps  bool // C05: snapshots and copies
-	counts bool // C07: count ops (inserted values are pre-hashed handles or basic literals)
-	memos  bool // C06
+	g           *gen
+	r           *rand.Rand
+	snaps       bool // C05: snapshots and copies
+	counts      bool // C07: count ops (inserted values are pre-hashed handles or basic literals)
+	memos       bool // C06
 	useDefaults bool // C14: insert Default(nil) views of composite types
 }
 
